@@ -63,9 +63,12 @@ Half(D, mode, pre, R, X, T, bogus, flag, err, g, e, dup, ret, bad) ==
        <<err = 0 /\ ~must /\ mode = 1 /\ e # runs, "C11.setup-exec">>,
        <<err = 0 /\ dup # {}, "C03.twice">>,
        <<err = 0 /\ mode = 2 /\ e # runs, "C03.call-exec">>,
+       \* (an excluded DEBUG node whose inputs are all available is taken along again when the flag is on - the repository's
+       \* tests/test_exclude_nodes.py::test_with_debug_nodes demands it; excluded non-debug nodes are covered by C12.exec)
        <<~flag /\ e \cap dbg # {}, "C13.off-ran">>,
        <<err = 0 /\ flag /\ ~must /\ mode # 1 /\ ~((S \cap dbg) \ pre \subseteq e), "C13.on-missing">>,
        <<err = 0 /\ flag /\ ~(\A x \in (e \cap dbg) \ S : D.deps[x] \subseteq e \cup pre), "C13.pulled-input">>,
+       <<err = 0 /\ flag /\ ~must /\ mode = 0 /\ ~(MustPull(D, S) \subseteq e), "C03.runnable-debug-node-left-out">>,
        <<err = 0 /\ mode # 1 /\ ret # (e \cup (pre \cap Nodes(D))), "C12.ret">>,
        <<err = 0 /\ bad # {}, "C12.retval">>})
 
